@@ -104,6 +104,28 @@ def check_module(ck, mod, defined_anywhere, label):
     return n, ncall
 
 
+def _helper_retention_ok(mod, g, pname, depth=0):
+    """g is file-local: the pointer parameter `pname` it stores is, at every call site left in the module, a parameter of the caller whose
+    retention is documented (or the caller is such a helper itself); no call site left = every call was inlined"""
+    if depth > 4:
+        return False
+    idx = [i_ for i_, p_ in enumerate(g.params) if p_["name"] == pname]
+    if len(idx) != 1:
+        return False
+    for c in mod.fns.values():
+        for I in c.calls(g.name):
+            a = tuple(I.call_args()[idx[0]])
+            if a[0] != "a":
+                return False
+            q = c.params[a[1]]["name"]
+            if (c.name, q) in ESCAPE_OK:
+                continue
+            if c.internal and _helper_retention_ok(mod, c, q, depth + 1):
+                continue
+            return False
+    return True
+
+
 def check_escape(ck, mod, label):
     """R-C19-ESCAPE: no pointer derived from a parameter is stored anywhere but the
     callee's own frame, except the documented callback/user_data retention."""
@@ -158,6 +180,10 @@ def check_escape(ck, mod, label):
                 elif (f.name, pname) in ESCAPE_OK:
                     ck.ok("R-C19-ESCAPE", f.name, "store-ptr:%s->state[%s]" % (pname, label),
                           "'%s' is retained in the PRNG state object as the API documents" % pname, where=relpath(s.where))
+                elif f.internal and _helper_retention_ok(mod, f, pname):
+                    # a file-local helper: its stores are its callers' (an inlined copy is checked in the caller's own body)
+                    ck.ok("R-C19-ESCAPE", f.name, "store-ptr:%s->state-via-helper[%s]" % (pname, label),
+                          "file-local helper: no call site left in the module, or every call site hands it a parameter whose retention the API documents", where=relpath(s.where))
                 else:
                     ck.bad("R-C19-ESCAPE", f.name, "store-ptr:%s[%s]" % (pname, label),
                            "pointer derived from parameter '%s' is stored to memory outside the frame: it outlives the call" % pname,
